@@ -114,6 +114,11 @@ func withRefs(r *rand.Rand, n *model.Node) {
 type embC struct {
 	E *ucfg.Config `config:"emb"`
 }
+type embSecond struct {
+	E *ucfg.Config `config:"emb"`
+	Z string       `config:"emb.zz9"`
+}
+
 type embV struct {
 	E ucfg.Config `config:"emb"`
 }
@@ -200,7 +205,7 @@ func (check) Run(seed int64, tier string, idx int, verbose bool) harness.Result 
 
 		// --- placement ---
 		var from interface{}
-		placement := []string{"direct", "map", "nested-map", "slice-twice", "struct-ptr", "struct-value", "map-twice"}[r.Intn(7)]
+		placement := []string{"direct", "map", "nested-map", "slice-twice", "struct-ptr", "struct-value", "map-twice", "map-second-spelling", "struct-second-spelling"}[r.Intn(9)]
 		if len(srcTree.A) > 0 && r.Intn(2) == 0 {
 			placement = "direct"
 		}
@@ -219,6 +224,12 @@ func (check) Run(seed int64, tier string, idx int, verbose bool) harness.Result 
 			from = &embV{*src}
 		case "map-twice":
 			from = map[string]interface{}{"emb": src, "emb2": src}
+		case "map-second-spelling":
+			// the namespace the source is embedded under is spelled a second
+			// time in the same input (a dotted key adding a new setting)
+			from = map[string]interface{}{"emb": src, "emb.zz9": "second", "emb.zz8.k": 1}
+		case "struct-second-spelling":
+			from = embSecond{E: src, Z: "second"}
 		}
 		embedded := placement != "direct"
 		res.SetAdd("placement", placement)
